@@ -284,15 +284,21 @@ class StereoMolGraph(MolGraph):
         :param atoms: Atoms to be used for the subgraph
         :return: Subgraph
         """
+        atoms = set(atoms)  # the iterable may be a one-shot iterator
         new_graph = super().subgraph(atoms)
 
+        # None is a placeholder (e.g. a lone pair), not an atom
         for central_atom, atoms_atom_stereo in self._atom_stereo.items():
             atoms_set = set((*atoms_atom_stereo.atoms, central_atom))
-            if all(atom in atoms for atom in atoms_set):
+            if all(atom in atoms for atom in atoms_set if atom is not None):
                 new_graph.set_atom_stereo(atoms_atom_stereo)
 
         for _bond, bond_stereo in self._bond_stereo.items():
-            if all(atom in atoms for atom in bond_stereo.atoms):
+            if all(
+                atom in atoms
+                for atom in bond_stereo.atoms
+                if atom is not None
+            ):
                 new_graph.set_bond_stereo(bond_stereo)
         return new_graph
 
